@@ -17,7 +17,7 @@ func init() {
 	fw.Register(&fw.Check{
 		ID:    "C08",
 		Level: "exploration",
-		Rule: "function shapes: all sequences of length<=3 (quick) / 4 (thorough) plus PRNG longer ones over {named/unnamed block start, named/unnamed add, store, fence, void call, non-void call, void/non-void invoke, void/non-void callbr, invoke unwinding to an unnamed catchswitch}, crossed with 0-2 named/unnamed parameters, each emitted with all unnamed values numbered explicitly, all implicitly, and mixed; the numbering is computed by the monitor's own model of LLVM's rule and validated by llvm-as on the explicit form. Module shapes: all sequences of length<=3 / 4 plus PRNG longer ones over named/unnamed {global, alias, ifunc, declaration, definition}. For each shape LLVM accepts: the library's parser must accept it, every %N/@N must be bound to the object at the position the model says (each unnamed value is stored to / listed in a sink in definition order), IDs must equal the model's, numbering again must change nothing, String() must not fail, LLVM must accept the printed text and read it as the same module. " +
+		Rule: "function shapes: all sequences of length<=3 (quick) / 4 (thorough) plus PRNG longer ones over {named/unnamed block start, named/unnamed add, store, fence, void call, non-void call, void/non-void invoke, void/non-void callbr, invoke unwinding to an unnamed catchswitch} with callees spelled in the short form or with their full function type (void (), void (...), i32 ()) and a table of the addresses of all numbered non-entry blocks in front of the functions, crossed with 0-2 named/unnamed parameters, each emitted with all unnamed values numbered explicitly, all implicitly, and mixed; the numbering is computed by the monitor's own model of LLVM's rule and validated by llvm-as on the explicit form. Module shapes: all sequences of length<=3 / 4 plus PRNG longer ones over named/unnamed {global, alias, ifunc, declaration, definition}. For each shape LLVM accepts: the library's parser must accept it, every %N/@N must be bound to the object at the position the model says (each unnamed value is stored to / listed in a sink in definition order), IDs must equal the model's, numbering again must change nothing, String() must not fail, LLVM must accept the printed text and read it as the same module. " +
 			"non-trivial = a shape with at least one unnamed value; distinct by (shape, emission mode)",
 		Gen:           genC08,
 		MinNontrivial: 1000,
